@@ -390,7 +390,7 @@ func c01Handoff(p *Prog, r *Report) {
 	}
 	s.Model = func(sm *Sim, st *State, call ssa.CallInstruction, callee *ssa.Function) []*State {
 		switch {
-		case callIsMethod(call, "proxycore", "pendingRequests", "loadAndDelete"):
+		case callee != nil && callee == getPendingRoles(p).loadAndDelete:
 			hit := st.clone()
 			hit.addEff("loaded")
 			SetCallResult(hit, call, avSymbol("req"))
@@ -505,7 +505,7 @@ func c01Closing(p *Prog, r *Report, cc *types.Named) {
 	closingF := p.Field("proxycore", "ClientConn", "closing")
 	muF := p.Field("proxycore", "ClientConn", "closingMu")
 	closing := p.methodOf(cc, "Closing")
-	add := p.FuncOpt("proxycore", "(*ClientConn).addToPending")
+	add := getPendingRoles(p).register
 	if closing == nil {
 		fatalf("anchor: ClientConn.Closing not found")
 	}
@@ -526,7 +526,7 @@ func c01Closing(p *Prog, r *Report, cc *types.Named) {
 				}
 				return []*State{st}
 			}
-			if callIsMethod(call, "proxycore", "pendingRequests", "closing") {
+			if callee != nil && callee == getPendingRoles(p).closing {
 				st.addEff("notify")
 				if b, ok := st.cells[closingF].isBool(); !ok || !b {
 					probs = append(probs, p.Pos(call.Pos())+": pending requests notified before the connection is marked closing (a request registered in between is never notified)")
@@ -570,7 +570,7 @@ func c01Closing(p *Prog, r *Report, cc *types.Named) {
 		var storeSites []ssa.CallInstruction
 		for _, fn := range p.ScopedFuncs("proxycore") {
 			eachCall(fn, func(c ssa.CallInstruction) {
-				if callIsMethod(c, "proxycore", "pendingRequests", "store") {
+				if c.Common().StaticCallee() == getPendingRoles(p).store {
 					storeSites = append(storeSites, c)
 				}
 			})
@@ -612,11 +612,7 @@ func c01Closing(p *Prog, r *Report, cc *types.Named) {
 	}
 	// (c) pendingRequests.closing notifies every ranged entry and keeps iterating
 	{
-		pr := p.Named("proxycore", "pendingRequests")
-		fn := p.methodOf(pr, "closing")
-		if fn == nil {
-			fatalf("anchor: pendingRequests.closing not found")
-		}
+		fn := getPendingRoles(p).closing
 		var probs []string
 		ranged := 0
 		eachCall(fn, func(c ssa.CallInstruction) {
@@ -659,9 +655,17 @@ func c01Closing(p *Prog, r *Report, cc *types.Named) {
 	// (d) Conn.read: recv.Closing called exactly once on every exit; the write loop never calls it
 	{
 		conn := p.Named("proxycore", "Conn")
-		fn := p.methodOf(conn, "read")
+		var fn *ssa.Function
+		for _, m := range p.methodsOf(conn) {
+			if callsDirectly(m, func(c ssa.CallInstruction) bool {
+				cm := c.Common()
+				return cm.IsInvoke() && cm.Method.Name() == "Receive" && recvNamedIs(cm.Method, "proxycore", "Receiver")
+			}) {
+				fn = m
+			}
+		}
 		if fn == nil {
-			fatalf("anchor: Conn.read not found")
+			fatalf("anchor: no method of Conn invokes Receiver.Receive (the connection reader)")
 		}
 		s := newSim(p)
 		s.Effect = func(call ssa.CallInstruction, callee *ssa.Function) []string {
@@ -687,10 +691,9 @@ func c01Closing(p *Prog, r *Report, cc *types.Named) {
 		}
 		r.check(len(probs) == 0, rule, "Conn.read", p.Pos(fn.Pos()), "Receiver.Closing exactly once on exit", strings.Join(dedupe(probs), " || "))
 		// the reader must be started for every connection: Start launches read
-		start := p.methodOf(conn, "Start")
 		launched := false
-		if start != nil {
-			eachInstr(start, func(in ssa.Instruction) {
+		for _, f := range p.ScopedFuncs("proxycore") {
+			eachInstr(f, func(in ssa.Instruction) {
 				if g, ok := in.(*ssa.Go); ok && g.Call.StaticCallee() == fn {
 					launched = true
 				}
